@@ -352,6 +352,8 @@ def gen_uncovered_order_case(rng):
         c = gen_case(rng)
         if not (c['implicit'] and c['nagg'] >= 1 and len(c['rows']) >= 2):
             continue
+        if not any(t['kind'] == 'key' for t in c['targets']) and rng.random() < 0.6:      # aggregates only: the smaller half
+            continue
         g = exprgen.Gen(rng, c['cols'], max_depth=1)
         e = g.expr(rng.choice(exprgen.ALL_TYPES), rng.choice([0, 0, 1]))
         names = {t['text'] for t in c['targets']} | {t['alias'] for t in c['targets'] if t['alias']}
@@ -513,10 +515,9 @@ def additivity_check(c):
         g = conn.execute(f'SELECT {", ".join(keycols)}, count(*) AS n FROM #t{w} GROUP BY {", ".join(keycols)}').fetchall()
         tot = conn.execute(f'SELECT count(*) AS n FROM #t{w}').fetchall()
         flat = conn.execute(f'SELECT {keycols[0]} FROM #t{w}').fetchall()
-        # count(<grouping key>): the NULL group contributes 0; the key referenced by name, by position and implicitly
+        # count(<grouping key>): the NULL group contributes 0; the key referenced by name, implicitly, and hidden
         kc = ', '.join(f'count({k}) AS c{j}' for j, k in enumerate(keycols))
         forms = [f'SELECT {", ".join(keycols)}, {kc} FROM #t{w} GROUP BY {", ".join(keycols)}',
-                 f'SELECT {", ".join(keycols)}, {kc} FROM #t{w} GROUP BY {", ".join(str(j + 1) for j in range(len(keycols)))}',
                  f'SELECT {", ".join(keycols)}, {kc} FROM #t{w}',
                  f'SELECT {kc} FROM #t{w} GROUP BY {", ".join(keycols)}']
         gk = [conn.execute(f).fetchall() for f in forms]
@@ -710,13 +711,13 @@ def run(tier, rng):
     cases = [gen_case(rng) for _ in range(n)]
     n_plain = len(cases)
     cases += [gen_in_case(rng) for _ in range(400 if tier == 'quick' else 6000)]
-    n_ka = 500 if tier == 'quick' else 6000
+    n_ka = 400 if tier == 'quick' else 6000
     cases += [gen_keyagg_case(rng) for _ in range(n_ka)]
     impl_out = core.pmap(run_impl, cases)
     model_out = model_many(cases)
     violations, seen = [], set()
     # ill-formed neighbours: non-aggregate ORDER BY item that is no target, no GROUP BY clause
-    ill = [gen_uncovered_order_case(rng) for _ in range(250 if tier == 'quick' else 3000)]
+    ill = [gen_uncovered_order_case(rng) for _ in range(200 if tier == 'quick' else 3000)]
     ill_impl = core.pmap(run_impl, ill)
     ill_model = model_many([base_of(c) for c in ill], tag='c02i')
     ill_hist = {'cases': len(ill), 'rejected_CompilationError': 0, 'accepted_with_partition_rows': 0, 'targets_all_aggregates': 0,
@@ -771,7 +772,7 @@ def run(tier, rng):
             kh['implicit'] += c['implicit']
             kh['executed'] += i[0] == 0
             kh['null_key_group_in_output'] += i[0] == 0 and any(
-                r[j] is None for r in i[1] for j, t in enumerate(c['targets']) if t['kind'] == 'key')
+                r[j] == [0] for r in i[1] for j, t in enumerate(c['targets']) if t['kind'] == 'key')
         if 'urows' in c:
             ih = hist.setdefault('in_subquery_in_where', {'cases': 0, 'inner_shape': {}, 'outer_having_aggregate': 0,
                                                           'outer_hidden_order_aggregate': 0, 'both': 0, 'outer_aggregates': {},
@@ -802,8 +803,8 @@ def run(tier, rng):
                 {'case': small, 'statement': statement(small), 'impl': run_impl(small),
                  'model': model_many([small], tag='c02s')[0]}, signature=sig))
     meta_bad = 0
-    for c in cases[:300 if tier == 'quick' else 3000]:
-        r = additivity_check(c)
+    add_cases = cases[:300 if tier == 'quick' else 3000]
+    for c, r in zip(add_cases, core.pmap(additivity_check, add_cases)):
         if r and meta_bad < 1:
             meta_bad += 1
             violations.append(core.Violation('additivity', f'{r} on rows {c["rows"]}', {'case': c, 'what': r},
